@@ -56,7 +56,7 @@ def config(rng):
     ff = rng.choice(common.FFS)
     opts = [f"--ff={ff}"]
     flavour = rng.choice(["plain", "plain", "propka", "dropwater", "ffout", "whitespace", "neutral", "noopt", "assign",
-                          "clean", "keepchain", "userff", "usernames"])
+                          "clean", "keepchain", "userff", "usernames", "apbs", "apbs"])
     if flavour == "propka":
         opts += ["--titration-state-method=propka", "--with-ph=%.1f" % rng.choice([2.0, 4.5, 7.0, 9.5, 12.0])]
     elif flavour == "dropwater":
@@ -73,6 +73,9 @@ def config(rng):
         opts = ["--clean"]
     elif flavour == "keepchain":
         opts += ["--keep-chain"]
+    elif flavour == "apbs":
+        # the APBS input written next to the PQR is an output of the run as well (grid sizing state)
+        opts += ["--apbs-input={dir}/o.in"]
     userff = None
     if flavour == "usernames":
         userff = {"ffseed": rng.randrange(10 ** 6), "base": ff, "names_only": True}
@@ -139,11 +142,20 @@ def run_cfg(cfg):
         else:
             dat, names, _ = ffgen.make(random.Random(cfg["userff"]["ffseed"]), cfg["userff"]["base"])
             extra = {"u.dat": dat, "u.names": names}
-    r = pipeline.run(text, opts, workname="c11", extra_files=extra,
+    apbs = any(o.startswith("--apbs-input") for o in opts)
+    r = pipeline.run(text, opts, workname="c11", extra_files=extra, keep=apbs,
                      suffix=".cif" if (cfg["w"] or {}).get("enc", "").startswith("cif") else ".pdb")
-    if r.ok and r.pqr_text is not None:
-        return "ok:" + hashlib.sha1(r.pqr_text.encode()).hexdigest(), r.pqr_text
-    return "fail:" + type(r.exc).__name__, None
+    try:
+        if r.ok and r.pqr_text is not None:
+            out = r.pqr_text
+            if apbs:
+                # the APBS input names the PQR by path: the per-run scratch directory is normalised away
+                out += "\n---- apbs input ----\n" + (r.dir / "o.in").read_text().replace(str(r.dir), "<dir>")
+            return "ok:" + hashlib.sha1(out.encode()).hexdigest(), out
+        return "fail:" + type(r.exc).__name__, None
+    finally:
+        if apbs:
+            r.cleanup()
 
 
 def fresh(cfg, hashseed):
@@ -250,6 +262,14 @@ def run_history(spec, res):
         c = config(rng)
         if c["fail"] is None and c["id"] not in [p["id"] for p in pool]:
             pool.append(c)
+    if spec["seed"] % 3 == 0:
+        # two different structures that both write an APBS input (grid sizing must not remember the previous molecule)
+        k = 0
+        while sum(1 for c in pool if c.get("flavour") == "apbs") < 2 and k < 400:
+            c = config(random.Random(spec["seed"] * 19 + k))
+            k += 1
+            if c["fail"] is None and c.get("flavour") == "apbs" and c["id"] not in [p["id"] for p in pool]:
+                pool.insert(0, c)
     fails = [c for c in (config(random.Random(spec["seed"] * 7 + k)) for k in range(40)) if c["fail"]][:2] or \
         [{"id": "fail-garbage", "fail": "garbage", "opts": ["--ff=AMBER"], "w": None}]
     ref = {}
